@@ -35,9 +35,44 @@ def one(b, cm, nrs, s, side, klass):
     b.add(klass, line, out, parse_model_bits, fails, dict(layer='schc', op='cmdecompress', schc=s, rules=nrs, side='L' if side == L else 'R', total=True), key=line)
 
 
+def huge_frames(rep, rnd, tier):
+    """frames of more than 65535 bytes (a jumbo link, two frames glued together, noise) under IPv6: a rule that computes only the UDP checksum (so that
+    no 16-bit length field has to hold the size) still gives a buffer; oracle on the implementation only (the models are not run on half a
+    million bits)"""
+    import packets as P
+    from schc_run import parser_for
+    from schc_util import gen_rfd, COMPUTABLE
+    from microschc.rfc8724 import RuleDescriptor as _RD
+    for k in range(2 if tier == 'quick' else 8):
+        v6 = True      # IPv4 cannot say such a length in its pseudo-header (16 bits): code and model raise OverflowError there, outside the bound of c20_*
+        src, dst = (rnd.randbytes(16), rnd.randbytes(16)) if v6 else (rnd.randbytes(4), rnd.randbytes(4))
+        u = P.udp(rnd, rnd.randbytes(20), csum=(lambda x: P.udp_checksum_v6(src, dst, x)) if v6 else (lambda x: P.udp_checksum_v4(src, dst, x)), dport=53)
+        pkt = P.ipv6(rnd, u, 17, src, dst) if v6 else P.ipv4(rnd, u, 17, src, dst)
+        stack = 'IPv6' if v6 else 'IPv4'
+        pd = parser_for(stack).parse(Buffer(pkt, len(pkt) * 8))
+        fds = [gen_rfd(rnd, f, 'comp' if str(getattr(f.id, 'value', f.id)) == 'UDP:Checksum' else 'vs', DI.BIDIRECTIONAL) for f in pd.fields]
+        rule = _RD(id=mk(randbits(rnd, 5)), field_descriptors=fds)
+        cm = ContextManager(Context(id='ch', description='', interface_id='i', parser_id=stack, ruleset=[rule]))
+        from schc_util import ref_compress
+        head = ref_compress(n_pdesc(pd), n_rule(rule))
+        if head is None:
+            continue
+        head = head[:len(head) - len(bits_of(pd.payload))]
+        for nbytes in ((65528, 65800) if tier == 'quick' else (65527, 65528, 65529, 65536, 65800, 70000)):
+            s_ = head + randbits(rnd, 8 * nbytes)
+            out = obs_bits(with_timeout(lambda: cm.decompress(mk(s_, R)), 15))
+            rep.count('huge-frame', key=('huge', k, nbytes))
+            rep.oracle_evals += 1
+            if out[0] == 'EXC' and out[1] not in OKEXC or out[0] == 'OK' and not isinstance(out[1], str):
+                rep.violation('property', 'decompress of a %d-byte frame with a rule computing only the UDP checksum (%s) gave %s' % (len(s_) // 8, stack, str(out)[:80]),
+                              dict(layer='schc', op='cmdecompress-huge', stack=stack, head=head, payload_bytes=nbytes, rule=n_rule(rule)))
+                return
+
+
 def run(rep, tier, seed):
     rnd = rng_for(seed, 'C20')
     b = Batch(rep)
+    huge_frames(rep, rng_for(seed, 'C20-huge'), tier)
     n = 100 if tier == 'quick' else 1000
     for i in range(n):
         stack, pkt, st, pd = gen_parsed(rnd, STACKS[i % len(STACKS)])
